@@ -711,16 +711,21 @@ func checkURRs(us []URR) (v *vcore.Violation, perioChecks int) {
 			if u.Trig != nil && lu.Trigger != trigWord(u.Trig) {
 				return vcore.Violatef("trigger", "step %d: DecodeURR trigger %#x want %#x", i, lu.Trigger, trigWord(u.Trig)), perioChecks
 			}
-			// metamorphic rendering on a scratch id that is removed again
+			// metamorphic rendering on a scratch id that is removed again - on the shared driver, not on this history's:
+			// the scratch URR's registration and removal would otherwise stand between the history's own step and the
+			// tick that observes it (it hid seed C03-o, whose stale query set any removal in the group refreshes)
 			alt := *u
 			alt.ID ^= 0x40000000
-			d.K.TakeLog()
+			sd := driver()
+			sd.K.TakeLog()
 			if u.Verb == "create" {
-				_ = d.G.CreateURR(alt.SEID, stack.OffWire(alt.IE(rev(u.Order))))
+				_ = sd.G.CreateURR(alt.SEID, stack.OffWire(alt.IE(rev(u.Order))))
 			} else {
-				_, _ = d.G.UpdateURR(alt.SEID, stack.OffWire(alt.IE(rev(u.Order))))
+				_ = sd.G.CreateURR(alt.SEID, stack.OffWire(ie.NewCreateURR(ie.NewURRID(alt.ID), ie.NewMeasurementMethod(0, 1, 0), ie.NewReportingTriggers(0x02, 0x00))))
+				sd.K.TakeLog()
+				_, _ = sd.G.UpdateURR(alt.SEID, stack.OffWire(alt.IE(rev(u.Order))))
 			}
-			req2, x := theAdd(d, gtp5gnl.CMD_ADD_URR)
+			req2, x := theAdd(sd, gtp5gnl.CMD_ADD_URR)
 			if x != nil {
 				return x, perioChecks
 			}
@@ -728,7 +733,7 @@ func checkURRs(us []URR) (v *vcore.Violation, perioChecks int) {
 				x.Key = "order-dependence/" + x.Key
 				return x, perioChecks
 			}
-			_, _ = d.G.RemoveURR(alt.SEID, ie.NewRemoveURR(ie.NewURRID(alt.ID)))
+			_, _ = sd.G.RemoveURR(alt.SEID, ie.NewRemoveURR(ie.NewURRID(alt.ID)))
 		}
 		// model of the registration
 		st := state[key]
